@@ -28,6 +28,12 @@ type SExpr struct {
 
 type BVar struct{ Name, Type string }
 
+type LockInv struct {
+	Key      string
+	Protects []string
+	Clauses  []Clause
+}
+
 type GhostVar struct {
 	Name, GType string
 	Init        *SExpr
@@ -123,6 +129,8 @@ type Specs struct {
 	Enumerate []EnumDecl
 	Bounded   []string
 	Immutable map[string]bool // "ice.Agent.field": never changed by wildcard havocs; stores enumerated
+	LockInvs  map[string]*LockInv // "ice.handlerNotifier.Mutex"
+	CloseOnly map[string]bool     // channel fields that are only ever closed (never sent on)
 }
 
 type EnumDecl struct {
@@ -322,7 +330,7 @@ func takeProps(body string) (props []string, label string, rest string) {
 }
 
 func parseSpecs(lines []ContractLine) *Specs {
-	S := &Specs{Contracts: map[string]*Contract{}, Funcs: map[string]*SpecFunc{}, Ghosts: map[string]*GhostField{}, Consts: map[string]string{}, Immutable: map[string]bool{}}
+	S := &Specs{Contracts: map[string]*Contract{}, Funcs: map[string]*SpecFunc{}, Ghosts: map[string]*GhostField{}, Consts: map[string]string{}, Immutable: map[string]bool{}, LockInvs: map[string]*LockInv{}, CloseOnly: map[string]bool{}}
 	var cur *Contract
 	errf := func(l ContractLine, f string, a ...any) {
 		S.Errors = append(S.Errors, fmt.Sprintf("%s:%d: %s", l.File, l.Line, fmt.Sprintf(f, a...)))
@@ -453,6 +461,46 @@ func parseSpecs(lines []ContractLine) *Specs {
 			}
 			S.Immutable[f[0]] = true
 			S.Enumerate = append(S.Enumerate, EnumDecl{Props: props, Kind: "stores", Args: f, File: l.File, Line: l.Line, Src: "immutable " + rest})
+			cur = nil
+		case "closeonly":
+			for _, f := range strings.Fields(strings.ReplaceAll(body, ",", " ")) {
+				S.CloseOnly[f] = true
+			}
+			cur = nil
+		case "lockprotects":
+			// lockprotects pkg.Type.mutexField f1, f2, ...
+			f := strings.Fields(strings.ReplaceAll(body, ",", " "))
+			if len(f) < 2 {
+				errf(l, "bad lockprotects")
+				continue
+			}
+			li := S.LockInvs[f[0]]
+			if li == nil {
+				li = &LockInv{Key: f[0]}
+				S.LockInvs[f[0]] = li
+			}
+			li.Protects = append(li.Protects, f[1:]...)
+			cur = nil
+		case "lockinv":
+			// lockinv [props] pkg.Type.mutexField label: expr   (expr over `this`)
+			props, _, rest := takeProps(body)
+			f := strings.SplitN(rest, " ", 2)
+			if len(f) != 2 {
+				errf(l, "bad lockinv")
+				continue
+			}
+			li := S.LockInvs[f[0]]
+			if li == nil {
+				li = &LockInv{Key: f[0]}
+				S.LockInvs[f[0]] = li
+			}
+			_, label, ex := takeProps(f[1])
+			e, err := parseSExpr(ex)
+			if err != nil {
+				errf(l, "%v", err)
+				continue
+			}
+			li.Clauses = append(li.Clauses, Clause{Props: props, Label: label, E: e, Src: ex, File: l.File, Line: l.Line})
 			cur = nil
 		case "enumerate":
 			props, _, rest := takeProps(body)
